@@ -164,3 +164,109 @@ def run(ctx, prog, res):
     back = [flow.shape(prog.fns[c], 0) for c in prog.closures(hnt.id)]
     r5.check(any(re.fullmatch(r"::add\(p2, TimeDelta::days\(p1\.0\)\)", b) for b in back), {"found_date_shifted_back_by": "+offset days"}, "C02.R5:shift-back",
              "the date found in the calendar is not shifted back by +offset days: %s" % back, lib.where_of(hnt))
+
+    # R6 -------------------------------------------------------------------------------------
+    r6 = res.rule("C02.R6", "a dated selector's hint is computed from the same intervals its filter tests (sibling agreement): the interval helpers of filter and hint pick the current interval with the same predicate; wherever a filter tests `is_open_from_*` on a generated sequence of bounds or intervals, the hint of the same selector calls `next_change_from_*` on a sequence generated by the same pipeline (same date constructors, same offsets, same lower year) that looks at least as far ahead; leap-day sequences look at least 8 years ahead (the longest gap between two 29 February)")
+    DFM = "opening_hours::filter::date_filter::"
+
+    def helper(prefix):
+        fs = [x for x in prog.fns.values() if x.id.startswith(DFM + prefix) and x.kind == "Fn"]
+        return fs
+
+    def find_pred(f):
+        out = []
+        for _, t in f.calls():
+            if flow.call_name(t).endswith("Iterator::find"):
+                clo = flow.closure_of_operand(f, t["args"][1])
+                if clo in prog.fns:
+                    out.append(flow.shape(prog.fns[clo], 0, depth=8))
+        return out
+    io, nc = helper("is_open_from_intervals"), helper("next_change_from_intervals")
+    if len(io) != 1 or len(nc) != 1:
+        r6.anchor_missing("the interval helpers is_open_from_intervals / next_change_from_intervals")
+    else:
+        pi, pn = find_pred(io[0]), find_pred(nc[0])
+        r6.check(len(pi) == 1 and pi == pn, {"current_interval_selected_by": pi, "in": "both helpers"}, "C02.R6:predicate",
+                 "filter and hint select the current interval differently: is_open_from_intervals uses %s, next_change_from_intervals uses %s" % (pi, pn), lib.where_of(nc[0]))
+
+    def pipeline(f, op):
+        stages = []
+        cur = op
+        for _ in range(8):
+            calls = flow.origin_calls(f, cur)
+            if len(calls) != 1:
+                break
+            c = calls[0]
+            nm = flow.call_names(c)[0]
+            if nm.startswith("core::iter::traits::iterator::Iterator::") and len(c["args"]) == 2:
+                clo = flow.closure_of_operand(f, c["args"][1])
+                body = flow.shape(prog.fns[clo], 0, depth=10) if clo in prog.fns else "?"
+                caps = [flow.shape(f, x, depth=6) for x in flow.closure_captures(f, c["args"][1])]
+                stages.append((nm.split("::")[-1], body, tuple(caps)))
+                cur = c["args"][0]
+            else:
+                break
+        return flow.shape(f, cur, depth=10), tuple(reversed(stages))
+
+    def horizon(src):
+        """(lower shape, upper kind, k) of RangeInclusive::new(lo, hi) over years."""
+        m = re.fullmatch(r"RangeInclusive::new\((.*), (::year\(const:DATE_END\)|Add\(::year\(p2\), (\d+)\)\.0|::year\(p2\))\)", src)
+        if not m:
+            return None
+        if m.group(2).startswith("::year(const"):
+            return m.group(1), 10 ** 6
+        return m.group(1), int(m.group(3) or 0)
+
+    n_pairs = 0
+    for im in prog.impls:
+        pass
+    for flt in [f for f in prog.fns.values() if f.crate == lib.OH and f.impl and (f.impl.get("trait") or "").endswith("DateFilter") and f.name == "filter"]:
+        hnt = [f for f in prog.fns.values() if f.impl and f.impl.get("id") == flt.impl.get("id") and f.name == "next_change_hint"]
+        tests = [t for _, t in flt.calls() if re.match(re.escape(DFM) + r"is_open_from_(bounds|intervals)", flow.call_name(t))]
+        if not tests:
+            continue
+        if len(hnt) != 1:
+            r6.anchor_missing("next_change_hint next to %s" % flt.id)
+            continue
+        hnt = hnt[0]
+        hints = [t for _, t in hnt.calls() if re.match(re.escape(DFM) + r"next_change_from_(bounds|intervals)", flow.call_name(t))]
+        for t in tests:
+            kind = flow.call_name(t).split("_from_")[-1]
+            fp = [pipeline(flt, a) for a in t["args"][1:]]
+            match = None
+            why = "no next_change_from_%s call" % kind
+            for h in hints:
+                if flow.call_name(h).split("_from_")[-1] != kind or len(h["args"]) != len(t["args"]):
+                    continue
+                hp = [pipeline(hnt, a) for a in h["args"][1:]]
+                if not all(x[1] and y[1] for x, y in zip(fp, hp)):
+                    continue  # a specialised arm built from explicit dates, not from a generated sequence
+                why = None
+                for (fs, fst), (hs, hst) in zip(fp, hp):
+                    if fst != hst:
+                        why = "different pipelines: filter %s, hint %s" % (fst, hst)
+                        break
+                    a, b = horizon(fs), horizon(hs)
+                    if a is None or b is None:
+                        if fs != hs:
+                            why = "different sources: filter %s, hint %s" % (fs, hs)
+                            break
+                        continue
+                    if a[0] != b[0]:
+                        why = "different first year: filter %s, hint %s" % (a[0], b[0])
+                        break
+                    if b[1] < a[1]:
+                        why = "the hint looks %d year(s) ahead, the filter %d" % (b[1], a[1])
+                        break
+                    leap = any("from_ymd_opt(p2, 2, 29)" in st[1] for st in hst)
+                    if leap and min(a[1], b[1]) < 8:
+                        why = "a leap-day sequence must look at least 8 years ahead (found %d)" % min(a[1], b[1])
+                        break
+                if why is None:
+                    match = h
+                    break
+            n_pairs += 1
+            r6.check(match is not None, {"selector": flt.impl.get("self", "").split("::")[-1], "filter_tests": "is_open_from_" + kind, "hint_computes": "next_change_from_%s on the same pipeline" % kind, "stages": [s[0] for s in fp[0][1]]},
+                     "C02.R6:%s:%s" % (flt.impl.get("self", "").split("::")[-1], kind),
+                     "%s: the filter tests is_open_from_%s on a generated sequence, but the hint does not compute next_change_from_%s from the same sequence (%s)" % (flt.impl.get("self", "").split("::")[-1], kind, kind, why), lib.where_of(hnt))
+    r6.floor(3)
